@@ -81,7 +81,7 @@ func newExplorer(depth int) (*explorer, error) {
 	e := &explorer{}
 
 	k, msg := fsx.Guard(func() {
-		idm := memidm.New()
+		idm := newIdm()
 		e.adminU = avfs.AdminUserName(idm.OSType())
 		e.adminG = idm.AdminGroup().Name()
 	})
@@ -118,7 +118,7 @@ func keyOf(m *Model, idm *memidm.MemIdm) stateKey {
 
 // replay runs hist on a fresh MemIdm and a fresh model.
 func (e *explorer) replay(hist []uint8) (*memidm.MemIdm, *Model) {
-	idm := memidm.New()
+	idm := newIdm()
 	m := NewModel(e.adminG, e.adminU)
 
 	for _, h := range hist {
@@ -420,7 +420,7 @@ func (e *explorer) step(hist []uint8, wantKey stateKey, check bool, op int) (t t
 
 // trace renders a history with the outcome of every call.
 func (e *explorer) trace(hist []uint8) []string {
-	idm := memidm.New()
+	idm := newIdm()
 	m := NewModel(e.adminG, e.adminU)
 
 	var out []string
@@ -438,7 +438,7 @@ func (e *explorer) trace(hist []uint8) []string {
 func (e *explorer) goTest(hist []uint8, last Call) string {
 	var b strings.Builder
 
-	b.WriteString("package memidm_test\n\nimport (\n\t\"testing\"\n\n\t\"github.com/avfs/avfs/idm/memidm\"\n)\n\nfunc TestC15Replay(t *testing.T) {\n\tidm := memidm.New()\n")
+	b.WriteString("package memidm_test\n\nimport (\n\t\"testing\"\n\n\t\"github.com/avfs/avfs/idm/memidm\"\n)\n\nfunc TestC15Replay(t *testing.T) {\n\tidm := " + newIdmGo() + "\n")
 
 	for _, h := range hist {
 		b.WriteString("\t" + e.ops[h].goStmt(false) + "\n")
@@ -518,6 +518,9 @@ func runSequential(tier string, depth int, rep *kf.Reporter, deadline time.Time)
 
 	report := func(hist []uint8, op int, v viol) {
 		s := v.sig()
+		if idmOS != avfs.OsLinux {
+			s["os"] = idmOS.String()
+		}
 		k := s.String()
 
 		if seenSig[k] {
